@@ -104,7 +104,8 @@ Apply(st, act) ==
 (***************************************************************************)
 (* Requests made of the object as it is now (C10): 0-based index i.        *)
 (***************************************************************************)
-ProbeKinds == {"MIdx", "MIdxC", "RetRow", "RetCol", "DelRow", "DelCol", "VIdx", "VIdxC", "PlusSame", "PlusT", "MinusEqT", "MatVec", "VecMat", "TraceDet", "SubM"}
+ProbeKinds == {"MIdx", "MIdxC", "RetRow", "RetCol", "DelRow", "DelCol", "VIdx", "VIdxC", "PlusSame", "PlusT", "MinusEqT", "MatVec", "VecMat", "TraceDet", "SubM",
+               "VPlusSame", "VPlusOther", "VMinusEqSame", "VMinusEqOther", "VDotSame", "VDotOther"}
 Meaningful(st, p, i, j) ==
   CASE p \in {"MIdx", "MIdxC", "RetRow", "DelRow"} -> i < st.rows
     [] p \in {"RetCol", "DelCol"} -> i < st.cols
@@ -115,6 +116,8 @@ Meaningful(st, p, i, j) ==
     [] p = "VecMat"               -> st.rows = st.vdim
     [] p = "TraceDet"             -> st.rows = st.cols
     [] p = "SubM"                 -> i < st.rows /\ j < st.cols
+    [] p \in {"VPlusSame", "VMinusEqSame", "VDotSame"}    -> TRUE      \* an operand of the dimension the vector has NOW
+    [] p \in {"VPlusOther", "VMinusEqOther", "VDotOther"} -> FALSE     \* an operand with one entry more
 
 VARIABLES st, hist
 vars == <<st, hist>>
